@@ -721,3 +721,79 @@ Proof.
   destruct (txs_frame c txs s1 Htx) as [A B]. rewrite E2 in A, B. simpl in A, B.
   pose proof (end_excludes c s2 q ord a) as X. rewrite E3 in X. simpl in X. apply X; [lia|congruence|exact Hq].
 Qed.
+
+(* ---------- a request whose votes cross the share is closed in that EndBlock ---------- *)
+Lemma process_req_sub : forall c q active req acc id,
+  reqs (process_req c q active req acc id).1.1 ⊆ reqs acc.1.1.
+Proof.
+  intros c q active req [[s dec] ev] id. unfold process_req. simpl.
+  destruct (reqs s !! id) as [r|]; [|reflexivity].
+  destruct (guilty_x c (count_choice YES (r_votes r)) req).
+  - destruct (negb (inb (r_mal r) q.*1)); [reflexivity|].
+    destruct (0 <=? _ - _); simpl; apply delete_subseteq.
+  - destruct (innocent_x c (count_choice NO (r_votes r)) req); simpl; [apply delete_subseteq|reflexivity].
+Qed.
+
+Lemma process_fold_sub : forall c q active req ids acc,
+  reqs (fold_left (process_req c q active req) ids acc).1.1 ⊆ reqs acc.1.1.
+Proof.
+  induction ids as [|x ids IH]; simpl; intros acc; [reflexivity|].
+  etrans; [apply IH|apply process_req_sub].
+Qed.
+
+(* what is left of request [id] right after it was processed *)
+Lemma process_req_left : forall c q active req acc id r,
+  reqs (process_req c q active req acc id).1.1 !! id = Some r ->
+  verdict_x c (count_choice YES (r_votes r)) (count_choice NO (r_votes r)) req = VOTING \/
+  guilty_without_record c q req r = true.
+Proof.
+  intros c q active req [[s dec] ev] id r. unfold process_req. simpl.
+  destruct (reqs s !! id) as [r0|] eqn:E; [|simpl; congruence].
+  unfold verdict_x, guilty_without_record.
+  destruct (guilty_x c (count_choice YES (r_votes r0)) req) eqn:G.
+  - destruct (inb (r_mal r0) q.*1) eqn:Q; simpl.
+    + destruct (0 <=? _ - _); simpl; rewrite lookup_delete; discriminate.
+    + intros H. rewrite E in H. inversion H; subst. right. rewrite G, Q. reflexivity.
+  - destruct (innocent_x c (count_choice NO (r_votes r0)) req) eqn:I; simpl.
+    + rewrite lookup_delete. discriminate.
+    + intros H. rewrite E in H. inversion H; subst. left. rewrite G, I. reflexivity.
+Qed.
+
+Lemma process_fold_closed : forall c q active req ids acc id r,
+  id ∈ ids -> reqs (fold_left (process_req c q active req) ids acc).1.1 !! id = Some r ->
+  verdict_x c (count_choice YES (r_votes r)) (count_choice NO (r_votes r)) req = VOTING \/
+  guilty_without_record c q req r = true.
+Proof.
+  induction ids as [|x ids IH]; simpl; intros acc id r Hin Hl; [apply elem_of_nil in Hin; tauto|].
+  destruct (decide (id = x)) as [->|Hne].
+  - eapply process_req_left. eapply lookup_weaken; [exact Hl|apply process_fold_sub].
+  - apply elem_of_cons in Hin. destruct Hin as [Hin|Hin]; [congruence|]. eapply IH; eauto.
+Qed.
+
+Lemma range_order_all : forall tr ord i, i ∈ tr -> i ∈ range_order tr ord.
+Proof.
+  intros tr ord i Hi. unfold range_order. apply elem_of_app.
+  destruct (inb i ord) eqn:E.
+  - left. apply elem_of_list_filter. split; [apply inb_true_iff; exact Hi|].
+    apply elem_of_remove_dups. apply inb_true_iff. exact E.
+  - right. apply elem_of_list_filter. split; [exact E|exact Hi].
+Qed.
+
+Lemma end_block_closes : forall c s q ord s' ev id r,
+  end_block c s q ord = (s', ev) -> 1 < height s -> (elect c s q).2 <> 0 ->
+  0 < voteDec c -> 0 < allegDec c ->
+  id ∈ tracker s -> reqs s' !! id = Some r ->
+  let req := required_x c (elect c s q).2 in
+  verdict_x c (count_choice YES (r_votes r)) (count_choice NO (r_votes r)) req = VOTING \/
+  guilty_without_record c q req r = true.
+Proof.
+  intros c s q ord s' ev id r H Hh Ha Hv Hd Hid Hr. unfold end_block in H.
+  assert (height s <=? 1 = false) as E1 by lia. rewrite E1 in H.
+  destruct (elect c s q) as [vs active] eqn:El. simpl in Ha.
+  assert (active =? 0 = false) as E2 by lia. rewrite E2 in H.
+  assert ((voteDec c <=? 0) || (allegDec c <=? 0) = false) as E3 by lia. rewrite E3 in H.
+  set (s2 := clean (set_vstat s vs)) in *.
+  pose proof (process_fold_closed c q active (required_x c active) (range_order (tracker s2) ord) (s2, [], []) id r) as F.
+  destruct (fold_left _ _ _) as [[s3 dec] ev3]. inversion H; subst. simpl in *.
+  apply F; [|exact Hr]. apply range_order_all. exact Hid.
+Qed.
